@@ -322,3 +322,27 @@ Theorem C13_batch_dicts :
   (forall c rest, chunks b l = c :: rest -> rest <> [] -> length c = b).
 Proof. exact (fun b l => batch_dicts_spec b l). Qed.
 Print Assumptions C13_batch_dicts.
+
+(** ** 11. the attribute DOMAIN (round 4).  Mode [AMixed]: one list may mix the forms of the pre-grouping attribute; every
+    value is normalised on its own ([norm_value]: the encoder tags a value 0 :: codes = str, 1 :: elements = list or
+    tuple, 2 = attribute absent, 3 :: keys = dict / OrderedDict, 5 :: [n] = number; tags 1 and 3 are read as multisets,
+    everything else by value).  All theorems above hold for every mode, so "isomorphism-invariant attribute" means:
+    isomorphic items have equal NORMALISED values (premise [gc_key mode x = gc_key mode y]). *)
+Theorem C13_attribute_normalisation :
+  forall (r : list Z) (t : Z),
+  norm_value (1%Z :: r) = 1%Z :: sortZ r /\ norm_value (3%Z :: r) = 3%Z :: sortZ r /\
+  (t <> 1%Z -> t <> 3%Z -> norm_value (t :: r) = t :: r) /\ norm_value [] = [].
+Proof. exact norm_value_meaning. Qed.
+Print Assumptions C13_attribute_normalisation.
+
+(** documentation of the defect repaired in round 4 (/repo 3659dfd): GraphCluster used to pick the normalisation by the
+    type of the FIRST value; after a str first value the whole list was compared raw (= mode [AStr] on the whole list)
+    and two isomorphic items with permuted list attributes were split, while the batched path (and the repaired code,
+    mode [AMixed]) joins them *)
+Theorem C13_first_item_normalisation_before_repair_refuted :
+  gc_key AMixed mix_b = gc_key AMixed mix_c /\
+  gc_fit mix_iso AMixed [mix_a; mix_b; mix_c] = [Some 0; Some 1; Some 1] /\
+  gc_fit mix_iso AStr [mix_a; mix_b; mix_c] = [Some 0; Some 1; Some 2] /\
+  fst (cluster mix_iso AMixed [mix_a; mix_b; mix_c] []) = [0; 1; 1]%Z.
+Proof. exact first_item_normalisation_before_repair. Qed.
+Print Assumptions C13_first_item_normalisation_before_repair_refuted.
